@@ -94,14 +94,18 @@ def build_model():
 
 
 # ------------------------------------------------------------------------------------------------ running
-def run_impl(hist_path, oracle=True, profile="release", timeout=30):
-    """run the crate on a history in a child process. Returns dict(lines, oracle, status)."""
+def run_impl(hist_path, oracle=True, profile="release", timeout=30, retry=False):
+    """run the crate on a history in a child process. Returns dict(lines, oracle, status).
+    retry=True: a timeout is confirmed by a second run with ten times the limit (at least 40 s) before it counts, so that a
+    loaded machine (many checks running side by side) cannot turn a slow run into a difference from the model."""
     cmd = [runner_path(profile)] + (["--oracle"] if oracle else []) + [hist_path]
     try:
         p = subprocess.run(cmd, stdout=subprocess.PIPE, stderr=subprocess.DEVNULL, timeout=timeout, text=True, errors="replace")
         status = "ok" if p.returncode == 0 else "crash(rc=%d)" % p.returncode
         out = p.stdout
     except subprocess.TimeoutExpired as e:
+        if retry:
+            return run_impl(hist_path, oracle=oracle, profile=profile, timeout=max(40, timeout * 10), retry=False)
         status = "timeout"
         out = e.stdout.decode("utf-8", "replace") if isinstance(e.stdout, bytes) else (e.stdout or "")
     lines, oracle_lines, info = [], [], []
@@ -117,8 +121,11 @@ def run_impl(hist_path, oracle=True, profile="release", timeout=30):
     return {"lines": lines, "oracle": oracle_lines, "status": status, "info": info}
 
 
-def run_model(hist_path, timeout=120):
+def run_model(hist_path, timeout=120, retry=False):
     cmd = [os.path.join(MODEL, "driver"), hist_path]
+    if retry:
+        r = run_model(hist_path, timeout=timeout)
+        return r if r["status"] != "model-timeout" else run_model(hist_path, timeout=max(120, timeout * 10))
     try:
         p = subprocess.run(cmd, stdout=subprocess.PIPE, stderr=subprocess.PIPE, timeout=timeout, text=True, errors="replace")
         status = "ok" if p.returncode == 0 else "model-crash(rc=%d): %s" % (p.returncode, p.stderr[-300:])
